@@ -88,6 +88,7 @@ type respScript struct {
 }
 
 type fcgiRig struct {
+	limit       int // body limit on /app (0 = none)
 	twoRules    bool
 	w           *World
 	c           *sim.Ctl
@@ -403,6 +404,12 @@ func runFcgi(mode string) sim.RigFunc {
 		r.envs = [][2]string{{"APP_ENV", "prod"}, {"REQ_HOST", "{host}"}}
 		var b strings.Builder
 		fmt.Fprintf(&b, "http://f.test:0%s {\n\tbind 127.0.0.1\n\tsimnet v0\n\troot %s\n\terrors %s {\n\t\trotate_disable\n\t}\n", r.prefix, r.root, r.errLog)
+		if mode == "C13" && st.Draw(4) == 0 {
+			r.limit = []int{10, 65500, 100000}[st.Draw(3)]
+			// (scopes are matched against the path with the site's own path prefix taken off)
+			fmt.Fprintf(&b, "\tlimits {\n\t\tbody /app %d\n\t}\n", r.limit)
+		}
+		c.Params["body_limit"] = r.limit
 		b.WriteString("\tfastcgi /app 10.8.0.1:9000 {\n\t\text .php\n\t\tsplit .php\n\t\tindex index.php\n\t\tenv APP_ENV prod\n\t\tenv REQ_HOST {host}\n")
 		r.readTimeout = 60 * time.Second
 		if st.Draw(3) == 0 && mode == "C19" {
@@ -499,6 +506,10 @@ var fcgiPaths = []struct{ path, script, info string }{
 	{"/app/x.php/", "/app/x.php", "/"},
 	{"/app/x.php/docs/setup.php", "/app/x.php", "/docs/setup.php"}, // the split string occurs again in the path info
 	{"/app/x.php/x.php", "/app/x.php", "/x.php"},
+	// letters whose lower-case form has another byte length (K U+212A: 3 -> 1 bytes, U+023A: 2 -> 3 bytes)
+	{"/app/%E2%84%AA/x.php/extra", "/app/\u212a/x.php", "/extra"},
+	{"/app/%C8%BA.php", "/app/\u023a.php", ""},
+	{"/app/%C8%BA%C8%BA/x.php/i", "/app/\u023a\u023a/x.php", "/i"},
 }
 
 // scripts of a second rule on the same base path (ext .cgi, split .cgi); only used when that rule is configured
@@ -533,6 +544,10 @@ func (r *fcgiRig) addReq(i int) {
 			vl = 127 - len("HTTP_"+name) + st.Draw(3) - 1 // name+value near the boundary
 		case 3:
 			vl = 20000 + st.Draw(45000) // big: Params needs several records with the others
+			if st.Draw(3) == 0 {
+				// the largest pairs that still fit one 65500-byte record (1-byte name length, 4-byte value length)
+				vl = 65500 - 5 - len("HTTP_"+name) - st.Draw(6)
+			}
 		default:
 			vl = 1 + st.Draw(40)
 		}
@@ -544,8 +559,16 @@ func (r *fcgiRig) addReq(i int) {
 	if st.Draw(3) == 0 {
 		q.hdrs = append(q.hdrs, [2]string{"X-Multi", "one"}, [2]string{"X-Multi", "two"})
 	}
+	if r.mode == "C19" && st.Draw(4) == 0 {
+		// a header whose name alone does not fit a FastCGI record
+		q.hdrs = append(q.hdrs, [2]string{"X-" + strings.Repeat("n", []int{65470, 65488, 65500, 70000}[st.Draw(4)]), "v"})
+		r.c.Fault("hostile-request-header-name")
+	}
 	if q.method != "GET" && q.method != "HEAD" && (q.method != "OPTIONS" && q.method != "DELETE" || st.Draw(3) == 0) {
 		bl := []int{0, 1, 100, 65499, 65500, 65501, 131000}[st.Draw(7)]
+		if r.limit > 0 && st.Draw(2) == 0 {
+			bl = []int{r.limit - 1, r.limit, r.limit + 1, r.limit + 70000}[st.Draw(4)]
+		}
 		q.body = make([]byte, bl)
 		for k := range q.body {
 			q.body[k] = byte('A' + (k*7+i)%26)
@@ -715,6 +738,18 @@ func (r *fcgiRig) judge() {
 			continue
 		}
 		resp := fin[0]
+		if r.limit > 0 && len(q.body) > r.limit {
+			// C17 through FastCGI: the body is cut off at the limit with a too-large error; the
+			// responder must not be run on the truncated upload as if it were the whole one
+			sig := fmt.Sprintf("limit=%d/chunked=%v", r.limit, q.chunked)
+			if p := q.peer; p != nil && p.stdinDone {
+				c.Violate("C17/truncated-body-passed-as-complete", sig, "request %d (%s, body %d bytes, limit %d): the responder received %d stdin bytes followed by a regular end of stdin; the client got status %d", q.id, q.method, len(q.body), r.limit, len(p.stdin), resp.Status)
+			} else if resp.Status != 413 {
+				c.Violate("C17/too-large-status", sig, "request %d (%s, body %d bytes, limit %d): the client got status %d, want 413", q.id, q.method, len(q.body), r.limit, resp.Status)
+			}
+			c.Probe("fastcgi-over-limit-body-judged")
+			continue
+		}
 		if resp.Status == 504 && q.peer != nil && c.Now()-q.peer.t0 >= r.readTimeout {
 			// the simulated network was slower than read_timeout: a gateway timeout is the right answer
 			c.Probe("gateway-timeout-because-network-slower-than-read_timeout")
@@ -751,9 +786,7 @@ func (r *fcgiRig) judge() {
 		hasBody := q.method == "POST" || q.method == "PUT" || q.body != nil
 		if hasBody {
 			want["CONTENT_TYPE"] = "application/x-test"
-			if !q.chunked {
-				want["CONTENT_LENGTH"] = fmt.Sprint(len(q.body))
-			}
+			want["CONTENT_LENGTH"] = fmt.Sprint(len(q.body))
 		}
 		var keys []string
 		for k := range want {
@@ -766,6 +799,12 @@ func (r *fcgiRig) judge() {
 				cls := k
 				if strings.HasPrefix(k, "HTTP_X_H") {
 					cls = "HTTP_*"
+					if len(want[k]) > 65000 {
+						cls = "HTTP_*/pair-fills-one-record"
+					}
+				}
+				if k == "CONTENT_LENGTH" && q.chunked {
+					cls = "CONTENT_LENGTH/chunked-request-body"
 				}
 				c.Violate("C13/param-wrong", cls, "request %d (%s %s): CGI variable %s: got %s (present=%v), want %s", q.id, q.method, q.path, k, short(got), ok, short(want[k]))
 			}
